@@ -3,3 +3,4 @@ pub mod c20;
 pub mod c14;
 pub mod c17;
 pub mod c10;
+pub mod c12;
